@@ -343,6 +343,55 @@ def run_S2(chk):
                     chk.undecided("S2", (f, c), c, "construction of a total charge that is not in the charge-flow table")
 
 
+def run_S7(chk):
+    """S7: `struct.size` is the number of stored elements, the sum over the blocks listed in `struct.D`.  A struct whose block list was
+    *narrowed* (filtered / index-selected: engine seqsel) by `X._replace(t=.., D=..)` without `size=` keeps the size of the larger block
+    list; that is harmless for a scratch value but not for a struct that becomes the struct of a tensor (`._replace(struct=<it>)`,
+    `<tensor>.struct = <it>`) or is returned."""
+    from ..core.seqsel import SelOrder
+    prog = chk.prog
+    chk.rule("S7", "a struct whose block list was narrowed carries the matching size when it becomes the struct of a result", floor=1)
+    n = 0
+    for f in prog.all_funcs():
+        if not f.module.name.startswith(("yastn.tensor", "yastn.initialize")) or "torch" in f.module.name or "_replace(" not in A.text(f.node):
+            continue
+        so = None
+        par = None
+        for st in A.walk_local(f.node, include_self=False):
+            if not (isinstance(st, ast.Assign) and isinstance(st.value, ast.Call) and isinstance(st.value.func, ast.Attribute) and st.value.func.attr == "_replace"
+                    and A.text(st.value.func.value).endswith("struct")):
+                continue
+            kw = {k.arg: k.value for k in st.value.keywords if k.arg}
+            if "D" not in kw:
+                continue
+            so = so or SelOrder(f.node)
+            facts = so.facts(kw["D"], st)
+            narrowed = sorted({sel for fam, sel, mem in facts if sel != "full"})
+            if not narrowed:
+                continue
+            n += 1
+            if "size" in kw:
+                chk.ok("S7", (f, st), f"{f.short}: `{A.short(st, 60)}` narrows the block list ({narrowed[0]}) and sets size")
+                continue
+            # does the struct escape into a result?
+            tname = A.text(st.targets[0])
+            escapes = None
+            for x in A.walk_local(f.node, include_self=False):
+                if isinstance(x, ast.Call) and isinstance(x.func, ast.Attribute) and x.func.attr == "_replace" and any(k.arg == "struct" and A.text(k.value) == tname for k in x.keywords):
+                    escapes = x
+                if isinstance(x, ast.Assign) and A.text(x.targets[0]).endswith(".struct") and A.text(x.value) == tname:
+                    escapes = x
+                if isinstance(x, ast.Return) and x.value is not None and any(isinstance(y, ast.Name) and y.id == tname for y in ast.walk(x.value)) \
+                        and isinstance(st.targets[0], ast.Name):
+                    escapes = x
+            chk.verdict("S7", (f, st), f"{f.short}: `{A.short(st, 60)}` narrows the block list ({narrowed[0]}) without size; scratch value only",
+                        False if escapes is not None else True,
+                        f"{f.short}(): `{A.short(st, 60)}` keeps only some of the blocks ({narrowed[0]}) but inherits `size` of the full block list, and the struct "
+                        f"becomes that of a result (`{A.short(escapes, 50) if escapes is not None else ''}`): Tensor.size exceeds the stored data, is_consistent() "
+                        f"fails and element-wise operations on the result raise")
+    return n
+
+
 def run_S1_axes(chk):
     """the axis-range guard shared by tensordot / trace / vdot-like operations accepts exactly the positions 0 .. ndim-1: decided by
     evaluating the guards of _unpack_trans_test_axes_pair (single-assignment temporaries inlined) on witness axis tuples.  A negative
@@ -386,6 +435,7 @@ def run_S1(chk):
     prog = chk.prog
     chk.rule("S1", "blocks are created only for charges satisfying the selection rule; loaders validate what they build", floor=6)
     run_S1_axes(chk)
+    run_S7(chk)
     f = prog.func(INI, "set_block")
     cfg = CFG(f.node)
     stmts = [n.ast for n in cfg.nodes if n.ast is not None]
